@@ -113,7 +113,8 @@ static void put_tree(const MPT_STRUCT(node) *n, const MPT_STRUCT(node) *parent, 
 			ob_hex(b, len);
 			/* the plain string conversion has to agree up to the first zero byte */
 			const char *s = 0;
-			if (conv->_vptr->convert(conv, 's', &s) < 0 || !s) { if (len) ob_s("?nostr"); }
+			/* (long text is buffer-backed and only offers the vector form) */
+			if (conv->_vptr->convert(conv, 's', &s) < 0 || !s) { }
 			else if (strlen(s) != strnlen((const char *) b, len) || memcmp(s, b, strlen(s))) ob_s("?strdiff");
 		}
 	}
@@ -184,6 +185,7 @@ static int record(void *ctx, const MPT_STRUCT(path) *p, const MPT_STRUCT(value) 
 {
 	struct event *e;
 	(void) ctx; (void) last;
+	if (fail_at >= 0 && (long) nev == fail_at) return -1;   /* refused elements are not recorded */
 	if (nev == capev) { capev = capev ? capev * 2 : 64; evs = realloc(evs, capev * sizeof(*evs)); }
 	e = &evs[nev];
 	e->kind = curr;
@@ -199,7 +201,6 @@ static int record(void *ctx, const MPT_STRUCT(path) *p, const MPT_STRUCT(value) 
 		if (vec->iov_len) memcpy(e->val, vec->iov_base, vec->iov_len);
 	}
 	++nev;
-	if (fail_at >= 0 && (long) (nev - 1) == fail_at) return -1;
 	return 0;
 }
 static void put_path(const struct event *e)
